@@ -11,7 +11,7 @@ from typing import Any, Dict, List
 
 from hypothesis import strategies as st
 
-from .. import drive_api, gen, model
+from .. import drive_api, e2e, gen, model
 from ..engine_common import engine_case, history_classes, inject_overdraft
 from ..runner import Outcome
 
@@ -32,7 +32,7 @@ CFG = gen.GenCfg(min_steps=4, max_steps=18, max_exchanges=3, max_holders=2)
 
 
 def budget(tier: str) -> Dict[str, Any]:
-    return {"shards": 16, "examples": 1200 if tier == "quick" else 15000}
+    return {"shards": 16, "examples": 1200 if tier == "quick" else 15000, "examples2": 8 if tier == "quick" else 150}
 
 
 @st.composite
@@ -85,7 +85,44 @@ def balance_violations(out: Outcome, txs: List[model.Tx], dump: Dict[str, Any], 
         )
 
 
+E2E_HIST = gen.GenCfg(min_steps=5, max_steps=16, max_exchanges=3, max_holders=2, bulk_prob=0.02, ops=("in", "in", "out", "out", "intra", "intra"))
+
+
+def e2e_judge(out: Outcome, case: Dict[str, Any], txs: List[model.Tx], dump: Dict[str, Any]) -> None:
+    """'Account Balances' table of the report (account rows and per-holder Total rows) against the generated rows."""
+    to_date = model.parse_date(case.get("to"))
+    balance_violations(out, txs, dump, to_date)
+    if out.violations:
+        return
+    flows = model.account_flows(txs, to_date)
+    totals: Dict[str, Fraction] = {}
+    for (_ex, holder), flow in flows.items():
+        totals[holder] = totals.get(holder, Fraction(0)) + flow.final
+    if set(dump["holder_totals"]) != set(totals):
+        out.fail("holder_totals_mismatch", f"'Total' rows exist for holders {sorted(dump['holder_totals'])}, holders with accounts are {sorted(totals)}")
+        return
+    for holder, total in totals.items():
+        if dump["holder_totals"][holder] != total:
+            out.fail("holder_total_wrong", f"Total of holder {holder} shows {dump['holder_totals'][holder]}, the final balances of that holder's accounts add up to {total}")
+            return
+    if len(totals) >= 2 and len(flows) >= 3:
+        out.nontrivial = True
+        out.classes.add("e2e_several_holders_and_accounts")
+
+
+def strategy2(tier: str) -> Any:
+    """End-to-end tier (rp2v/e2e.py): joint-filing inputs (2 holders x 3 exchanges, transfers between all pairs) through the
+    console entry point, with and without a to-date; balances and per-holder totals read back from the report."""
+    return e2e.file_strategy(E2E_HIST, countries=("us", "us", "generic", "ie", "jp"), to_dates=True, flavours=("mixed", "transfer_heavy"))
+
+
+def minimize(case: Dict[str, Any], clause: str) -> Dict[str, Any]:
+    return e2e.minimize(case, clause, evaluate) if case.get("e2e") else case
+
+
 def evaluate(case: Dict[str, Any]) -> Outcome:
+    if case.get("e2e"):
+        return e2e.evaluate_assets(case, "c07e", lambda out, asset, txs, dump, schedule: e2e_judge(out, case, txs, dump))
     out = Outcome()
     txs = model.make_txs(case["rows"])
     out.classes |= history_classes(txs, case["schedule"])
